@@ -373,6 +373,13 @@ func c11Replay(w json.RawMessage) (string, string) {
 	if err := json.Unmarshal(w, &wit); err != nil {
 		return "bad-witness", err.Error()
 	}
+	if wit.Kind == "persist" || wit.Kind == "ctx" {
+		var ew c11ExtraWitness
+		if err := json.Unmarshal(w, &ew); err != nil {
+			return "bad-witness", err.Error()
+		}
+		return c11ExtraReplay(ew)
+	}
 	s, m, _ := c11Experiment(wit)
 	return s, m
 }
@@ -844,4 +851,5 @@ func c11Run(c *mc.Ctx) {
 		}
 	}
 	c.Sample(map[string]any{"universe": len(u), "sessions": len(sessions), "keys": len(keys)})
+	c11ExtraPasses(c)
 }
